@@ -219,6 +219,7 @@ def layout_stage(prop, tier, name):
            "C06": {"contents", "panicked", "frees"},
            "C08": {"count"},
            "C09": {"frees", "layout", "contents", "panicked"},
+           "C15": {"size", "frees", "layout", "contents", "panicked"},
            "C10": {"thin", "addr", "heap", "size", "layout", "frees", "panicked", "contents"}}[prop]
     seen = set()
     for cat, key, msg, x in errs:
@@ -229,6 +230,8 @@ def layout_stage(prop, tier, name):
         if prop == "C08" and x["family"] != "arcswap":
             continue
         if prop == "C09" and x.get("path") not in ("into_inner", "try_unwrap"):
+            continue
+        if prop == "C15" and x.get("ctor") not in ("new_uninit", "arc_new_uninit", "uninit", "new_uninit_slice"):
             continue
         if prop == "C10" and not (x["family"] == "hs" and x.get("ctor", "").startswith(("thin", "fat_into"))):
             continue
